@@ -256,7 +256,7 @@ class Spec(PropSpec):
 
     def oracle(self, case, obs):
         if obs.get("panic"):
-            return []
+            return [("the implementation panicked on an established stream: %s" % str(obs["panic"])[:200], None)]
         return c02_oracle(case, obs)
 
     def nontrivial(self, case, obs):
